@@ -5,7 +5,7 @@ from hypothesis import strategies as st
 from hypothesis.stateful import RuleBasedStateMachine, initialize, invariant, precondition, rule
 from metapype.model.node import Node, Shift
 
-from vf.runner import CaseTimeout, Violation, hyp_machine, machine_violation, time_limit
+from vf.runner import CaseTimeout, Violation, hyp_machine, hyp_search, machine_violation, time_limit
 
 ID = "C09"
 RULE = ("(1) Exhaustive small scope: a universe of labelled nodes carrying two element names; breadth-first over "
@@ -263,6 +263,24 @@ def _query_diff(nodes, m, full=True):
     return None
 
 
+def warm(nodes, names):
+    """run the read-only queries once without judging them: results must not be remembered across later edits"""
+    try:
+        with time_limit(10):
+            for n in nodes:
+                for nm in sorted(set(names)):
+                    n.find_child(nm)
+                    n.find_all_children(nm)
+                    n.find_descendant(nm)
+                    n.find_all_descendants(nm, [])
+                    n.find_all_nodes_by_path([nm, nm])
+                    n.find_single_node_by_path([nm])
+                for c in nodes[:3]:
+                    n.child_index(c)
+    except (CaseTimeout, Exception):  # noqa  (judged by query_diff)
+        pass
+
+
 def rebuild(names, path):
     Node.store.clear()
     nodes = [Node(nm) for nm in names]
@@ -281,6 +299,7 @@ def check_step(names, path, op):
     if d:
         raise Violation("replayed-state-differs", d, case)
     before = [list(n.children) for n in nodes]
+    warm(nodes, names)
     r1 = real_apply(nodes, op)
     r2 = m.apply(op)
     tag = op[0] + ("-positional" if op[0] == "shift" and not op[4] else "")
@@ -298,6 +317,9 @@ def check_step(names, path, op):
         raise Violation(f"{tag}-tree-differs", f"after {op}: {d}", case)
     if op[0] == "shift" and r1 != r2:
         raise Violation(f"{tag}-return-value", f"{op}: returned {r1!r}, child is at index {r2!r}", case)
+    q = query_diff(nodes, m, full=False)   # queries right after the edit, on the forest that was queried before it
+    if q:
+        raise Violation("query-after-edit:" + q[0], f"after {op}: {q[1]}", case)
     nontrivial = op[0] in ("shift", "rep") and len(m.kids[op[1]]) >= 3
     return nodes, m, nontrivial
 
@@ -497,6 +519,95 @@ class TreeMachine(RuleBasedStateMachine):
                 ctx.sample("machine-history", {"names": self.names, "history": [list(o) for o in self.history]})
 
 
+# ------------------------------------------------------------------ larger trees (wide / deep), edits then queries
+
+@st.composite
+def big_case(draw):
+    n = draw(st.integers(8, 40))
+    names = [draw(st.sampled_from("aabc")) for _ in range(n)]
+    shape = draw(st.sampled_from(["random", "wide", "deep", "comb"]))
+    ops = []
+    for i in range(1, n):
+        if shape == "wide":
+            p = draw(st.integers(0, min(i - 1, 2)))
+        elif shape == "deep":
+            p = i - 1 if draw(st.integers(0, 5)) else draw(st.integers(0, i - 1))
+        elif shape == "comb":
+            p = i - 2 if i % 2 == 0 and i >= 2 else i - 1
+        else:
+            p = draw(st.integers(0, i - 1))
+        ops.append(("attach", p, i, draw(st.integers(0, 40))))
+    edits = draw(st.lists(st.tuples(st.sampled_from(["shift", "rem-reattach", "rep"]), st.integers(0, 60), st.integers(0, 60),
+                                    st.integers(0, 1), st.integers(0, 1)), max_size=8))
+    return names, ops, edits
+
+
+def check_big(names, ops, edits):
+    case = {"names": names, "big_ops": [list(o) for o in ops], "edits": [list(e) for e in edits]}
+    Node.store.clear()
+    nodes = [Node(nm) for nm in names]
+    m = Model(names)
+    history = []
+
+    def do(op):
+        history.append(op)
+        r1 = real_apply(nodes, op)
+        r2 = m.apply(op)
+        tag = op[0] + ("-positional" if op[0] == "shift" and not op[4] else "")
+        if isinstance(r1, str) and r1.startswith("EXC"):
+            raise Violation(f"{tag}-raises:" + r1.split(":")[0][4:], f"{op}: {r1}", case)
+        if (r1 == "ValueError") != (r2 == "ValueError"):
+            raise Violation(f"{tag}-refusal-differs", f"{op}: real {r1!r}, model {r2!r}", case)
+        if op[0] == "shift" and r1 != r2:
+            raise Violation(f"{tag}-return-value", f"{op}: returned {r1!r}, child is at index {r2!r}", case)
+        d = structure_diff(nodes, m)
+        if d:
+            raise Violation(f"{tag}-tree-differs", f"after {op}: {d}", case)
+
+    for _, p, c, idx in ops:
+        if idx % 3 == 0:
+            do(("add", p, c))
+        else:
+            do(("ins", p, c, idx % (len(m.kids[p]) + 1)))
+    warm(nodes, names)
+    for kind, a, b, d, sib in edits:
+        parents = [p for p in range(len(names)) if m.kids[p]]
+        if not parents:
+            break
+        p = parents[a % len(parents)]
+        c = m.kids[p][b % len(m.kids[p])]
+        if kind == "shift":
+            do(("shift", p, c, d, sib))
+        elif kind == "rem-reattach":
+            do(("rem", p, c))
+            targets = [q for q in range(len(names)) if q != c and not m.anc(c, q)]
+            q = targets[(a + b) % len(targets)]
+            do(("ins", q, c, b % (len(m.kids[q]) + 1)))
+        else:
+            free = [x for x in range(len(names)) if x != c and m.par[x] is None and not m.anc(x, p) and names[x] == names[c]]
+            if free:
+                do(("rep", p, c, free[0]))
+    r = query_diff(nodes, m, full=True)
+    if r:
+        raise Violation("query:" + r[0], r[1], case)
+    depth = max(len(nodes[i].get_ancestry()) for i in range(len(nodes)) if nodes[m.root(i)].parent is None) if nodes else 0
+    width = max(len(k) for k in m.kids)
+    return depth, width
+
+
+def big_shard(ctx, shard):
+    n = (640 if ctx.quick else 32000) // 16
+
+    def body(c):
+        depth, width = check_big(*c)
+        ctx.note(key=c, nontrivial=depth >= 5 or width >= 7,
+                 cls=["big:depth>=5" if depth >= 5 else "big:shallow", "big:width>=7" if width >= 7 else "big:narrow"])
+        if depth >= 8 and len(c[0]) <= 14:
+            ctx.sample("big-tree", {"names": c[0], "big_ops": [list(o) for o in c[1]], "edits": [list(e) for e in c[2]]})
+
+    hyp_search(ctx, "big-trees", big_case(), body, n, shard=shard)
+
+
 def machine_shard(ctx, shard):
     n = (320 if ctx.quick else 20000) // 16
     hyp_machine(ctx, "edit-histories", TreeMachine, n, 50 if ctx.quick else 120, shard=shard)
@@ -510,24 +621,48 @@ def run(ctx):
         bfs(ctx, ["a", "a", "a", "b", "b"], 10 ** 6)
         bfs(ctx, ["a", "a", "a", "b", "b", "b"], 10 ** 7)
     ctx.pmap(machine_shard, range(16))
+    ctx.pmap(big_shard, range(16))
+
+
+def replay_history(names, history):
+    """the state machine's run, step by step on one forest, without Hypothesis"""
+    Node.store.clear()
+    nodes = [Node(nm) for nm in names]
+    m = Model(names)
+    for i, op in enumerate(history):
+        before = [list(n.children) for n in nodes]
+        r1 = real_apply(nodes, op)
+        r2 = m.apply(op)
+        tag = op[0] + ("-positional" if op[0] == "shift" and not op[4] else "")
+        if isinstance(r1, str) and r1.startswith("EXC"):
+            return f"{tag}-raises: {op}: {r1}"
+        if r2 == "ValueError":
+            if r1 != "ValueError":
+                return f"{tag}-failing-edit-not-refused: {op}: got {r1!r}"
+            if [list(n.children) for n in nodes] != before:
+                return f"{tag}-failing-edit-changes-tree: {op}"
+        elif r1 == "ValueError":
+            return f"{tag}-refused: {op}"
+        elif op[0] == "shift" and r1 != r2:
+            return f"{tag}-return-value: {op}: returned {r1!r}, child is at index {r2!r}"
+        d = structure_diff(nodes, m)
+        if d:
+            return "tree-differs: " + d
+        r = query_diff(nodes, m, full=(i + 1) % 4 == 0)
+        if r:
+            return f"query:{r[0]}: {r[1]}"
+    r = query_diff(nodes, m, full=True)
+    return f"query:{r[0]}: {r[1]}" if r else None
 
 
 def replay(case):
     names = case["names"]
     try:
-        if "history" in case:
-            nodes, m = rebuild(names, [])
-            for i, op in enumerate(case["history"]):
-                op = tuple(op)
-                _, m2, _ = check_step(names, [tuple(o) for o in case["history"][:i]], op)
-            nodes, m = rebuild(names, [tuple(o) for o in case["history"]])
-            d = structure_diff(nodes, m)
-            if d:
-                return "tree-differs: " + d
-            r = query_diff(nodes, m)
-            if r:
-                return f"query:{r[0]}: {r[1]}"
+        if "big_ops" in case:
+            check_big(names, [tuple(o) for o in case["big_ops"]], [tuple(e) for e in case["edits"]])
             return None
+        if "history" in case:
+            return replay_history(names, [tuple(o) for o in case["history"]])
         path = [tuple(o) for o in case["path"]]
         if case.get("query"):
             nodes, m = rebuild(names, path)
